@@ -168,11 +168,26 @@ CastE(T, r) ==
 
 Truth(r) == r.v # 0
 
+\* a constant integer expression (folded by the compiler into one literal node)
+RECURSIVE IsConst(_)
+IsConst(e) == \/ e[1] = "c"
+              \/ (e[1] = "neg" /\ IsConst(e[2]))
+              \/ (e[1] = "bin" /\ e[2] # "/" /\ IsConst(e[3]) /\ IsConst(e[4]))
+
+\* any constant expression (the compiler knows its value ... or believes it does)
+RECURSIVE IsConstX(_)
+IsConstX(e) == \/ e[1] \in {"c", "cd"}
+               \/ (e[1] \in {"neg", "not"} /\ IsConstX(e[2]))
+               \/ (e[1] \in {"bin", "cmp"} /\ IsConstX(e[3]) /\ IsConstX(e[4]))
+               \/ (e[1] = "cast" /\ IsConstX(e[3]))
+\* a zero divisor written as a cast of a constant: the compiler omits the zero test (known)
+ZeroCastDivisor(e, r) == e[1] = "bin" /\ e[2] \in {"/", "//", "%"} /\ e[4][1] = "cast" /\ IsConstX(e[4][3]) /\ r.v = 0
+
 \* the helper function of a program: params p, q ; body one expression ; typed return
 RECURSIVE Eval(_, _, _)
 Eval(pr, env, e) ==
   LET tag == e[1] IN
-  CASE tag = "c"  -> Ok("long", e[2])                    \* integer literal: C long
+  CASE tag = "c"  -> Ok("int", e[2])                     \* integer literal: the C compiler computes `a + 1` in int (Cython says long)
     [] tag = "cd" -> Ok("double", e[2])                  \* float literal, in quarters
     [] tag = "v"  -> (IF env[e[2]].k = "u" THEN Pr("unbound") ELSE Ok(pr.types[e[2]], env[e[2]].v))
     [] tag = "neg" -> LET r == Eval(pr, env, e[2]) IN
@@ -188,8 +203,11 @@ Eval(pr, env, e) ==
                   [] tag = "cmp" -> (IF l.k = "d" \/ r.k = "d"
                                      THEN (IF QBig(l) \/ QBig(r) THEN Pr("beyond-tlc") ELSE Ok("bint", B2I(Cmp(e[2], Q(l), Q(r)))))
                                      ELSE Ok("bint", B2I(Cmp(e[2], l.v, r.v))))
-                  [] OTHER -> CDivMod(tag, l, r), l.fl \cup r.fl)
-    [] tag = "cast" -> LET r == Eval(pr, env, e[3]) IN IF r.st # "ok" THEN r ELSE WithFl(CastE(e[2], r), r.fl)
+                  [] OTHER -> CDivMod(tag, l, r),
+                l.fl \cup r.fl \cup (IF ZeroCastDivisor(e, r) THEN {"zero_divisor_cast_of_const"} ELSE {}))
+    [] tag = "cast" -> LET r == Eval(pr, env, e[3]) IN
+                       IF r.st # "ok" THEN r
+                       ELSE WithFl(CastE(e[2], r), r.fl \cup (IF e[2] = "bint" /\ r.k = "i" /\ IsConst(e[3]) THEN {"bint_cast_of_int_const"} ELSE {}))
     [] tag = "call" ->       \* h(e1, e2): arguments converted to the parameter types, result to the declared return type
          LET h == pr.helper
              l == Eval(pr, env, e[2]) IN
